@@ -13,18 +13,23 @@ ASSUMPTIONS = [
     "H07a: previous session id 0 is outside the claim (illegal in SOME/IP-SD); the assertion is conditional on old_id >= 1 but the query ranges over 0..0xFFFF so that the hole cannot widen unnoticed",
     "H07b: histories of length <= K from the initial (empty) memory; H07a covers arbitrary memory by induction",
 ]
-REACH = {"H07a": ["h07a.checked"], "H07b": ["h07b.detected", "h07b.not-detected", "h07b.end"]}
+REACH = {"H07a": ["h07a.checked"], "H07b": ["h07b.detected", "h07b.not-detected", "h07b.end"], "H07c": ["h07c.detected", "h07c.not-detected"]}
 
 
 def bounds(tier):
     return {
         "H07a": "one check_received step from an arbitrary memory: 2 senders x 2 channels, key present/absent, old flag, old id 0..0xFFFF, new flag, new id 0..0xFFFF all symbolic; three foreign entries symbolic",
+        "H07c": "one datagram (SD / non-SD / truncated; 2 senders x 2 channels) through ServiceDiscoveryProtocol.datagram_received from an arbitrary session memory (every (sender, channel) entry present or absent, flags and ids symbolic): the inductive step at protocol level - covers histories of any length incl. interference between channels and senders",
         "H07b": "K=%d SD datagrams through ServiceDiscoveryProtocol.datagram_received; per datagram: sender in {P,Q}, channel in {unicast,multicast}, kind in {SD, non-SD method, truncated SD payload}; session id 16-bit symbolic, reboot flag symbolic" % (3 if tier == "thorough" else 2),
     }
 
 
 def cases(tier, seed):
     out = [{"h": "H07a"}]
+    for si in range(2):
+        for ci in range(2):
+            for kind in ("sd", "nonsd", "trunc"):
+                out.append({"h": "H07c", "step": [si, ci, kind]})
     K = 3 if tier == "thorough" else 2
     kinds = ["sd", "sd", "nonsd", "trunc"]  # alphabet per step: (sender, channel, kind)
     import itertools
@@ -127,6 +132,57 @@ def h07b(E, M, case):
     E.reach("h07b.end")
 
 
+def h07c(E, M, case):
+    """protocol-level inductive step: arbitrary memory, one datagram"""
+    loop = new_loop(E)
+    prot = M.sd.ServiceDiscoveryProtocol(MC)
+    prot.transport = RecTransport(loop)
+    calls = {"discovery": [], "subscriber": [], "announcer": []}
+    for name in calls:
+        getattr(prot, name).reboot_detected = (lambda n: (lambda addr: calls[n].append(addr)))(name)
+    keys = [(s, mc) for s in SENDERS for mc in (False, True)]
+    mem = {}
+    for j, k in enumerate(keys):
+        if E.flag("present%d" % j):
+            mem[k] = (E.bool("m_flag%d" % j), E.int("m_id%d" % j, 1, 0xFFFF))
+            prot.session_storage.incoming[k] = mem[k]
+    si, ci, kind = case["step"]
+    sender, mc = SENDERS[si], bool(ci)
+    flag = E.bool("flag")
+    sid = E.int("sid", 1, 0xFFFF)
+    offer = wire.sd_entry_bytes(wire.T_OFFER, 0, 0, 0, 0, 0x1234, 1, 1, 3, 0)
+    payload = wire.sd_payload(E.ite(flag, 0xC0, 0x40), [offer], [])
+    if kind == "sd":
+        data = wire.someip_bytes(wire.SD_SERVICE, wire.SD_METHOD, 0, sid, 1, 2, 0, payload)
+    elif kind == "nonsd":
+        data = wire.someip_bytes(wire.SD_SERVICE, wire.SD_METHOD, 0, sid, 2, 2, 0, payload)
+    else:
+        data = wire.someip_bytes(wire.SD_SERVICE, wire.SD_METHOD, 0, sid, 1, 2, 0, payload[:-5])
+    data = mk(E, data)
+    loop.deliver(5, lambda: prot.datagram_received(data, sender, mc), may_defer=False)
+    loop.settle()
+    loop_clean(E, loop)
+    key = (sender, mc)
+    if kind == "sd" and key in mem:
+        of, oi = mem[key]
+        expect = E.And(flag, E.Or(E.Not(of), oi >= sid))
+    else:
+        expect = False
+    for n, c in calls.items():
+        E.observe([n, len(c)])
+        E.require(len(c) <= 1 and all(a == sender for a in c), "a detection reaches each component at most once, with the sender's address")
+        E.require(E.Iff(expect, len(c) == 1), "reboot signalled exactly by the rule, from any memory: other senders and the other channel neither trigger nor mask it", {"component": n, "calls": len(c)})
+    E.reach("h07c.detected" if calls["discovery"] else "h07c.not-detected")
+    inc = prot.session_storage.incoming
+    want = dict(mem)
+    if kind == "sd":
+        want[key] = (flag, sid)
+    E.require(sorted(map(repr, inc)) == sorted(map(repr, want)), "memory holds exactly the previous keys plus the sender's (undecodable messages add nothing)", {"have": sorted(map(repr, inc)), "want": sorted(map(repr, want))})
+    for k, (f, i) in want.items():
+        if k in inc:
+            E.require(E.And(E.eq(inc[k][0], f), inc[k][1] == i), "entries of other senders / the other channel are untouched; the sender's entry becomes (flag, id)", {"key": repr(k)})
+
+
 def mk(E, items):
     if E.symbolic:
         from symx.symbytes import mk_bytes
@@ -135,4 +191,4 @@ def mk(E, items):
     return bytes(items)
 
 
-SCENARIOS = {"H07a": h07a, "H07b": h07b}
+SCENARIOS = {"H07a": h07a, "H07b": h07b, "H07c": h07c}
